@@ -6,16 +6,28 @@ Correspondence
                     against the Lean `openapiCases` on the operation description read back from the real operation
                     (`parameters_to_json_schema`, real `can_negate`).
   labels:real       real Hypothesis draws from `operation.as_strategy(NEGATIVE)` (pinned seed) — labels vs the model.
+  labels:explicit   the real `openapi_cases` with explicit `path_parameters=/headers=/cookies=/query=/body=` arguments
+                    under scripted draws (every choice sequence, known-value factories that may also draw `{}`)
+                    against the Lean `openapiCasesX`: outcome, labels, the value and the
+                    generator of every location, and the strategy `get_parameters_strategy` handed out (observed through
+                    its cache: the explicit choices of a parameter shape run on one operation object).
+  explicit:real     real Hypothesis draws from `as_strategy(NEGATIVE, headers=…, …)`; every execution that reached the
+                    labelling step against `openapiCasesX` (values replaced by digests).
   mutation:*        the real mutation functions of negative/mutations.py driven by a scripted `draw` (sampled_from,
                     feature flags, orderings chosen by the harness rng and recorded) against the Lean functions.
 Replay
   every labelled part of every real draw is judged by the Lean reference semantics (`validF`, request mode), non-body
   parts additionally through their wire spelling (`partConforms`); `jsonschema` is the cross-oracle (shared selfcheck).
+  An operation that ends without a single case (SkipTest / Unsatisfiable) although the reference semantics finds an
+  input, left to generate, whose declared schema rejects some wire spelling (parameters) or instance (body) is a
+  violation; its signature names the location whose strategy starved and the shape of what the caller supplied.
 """
 from __future__ import annotations
 
 import copy
 import json
+import time
+from collections import Counter
 import urllib.parse
 import warnings
 
@@ -119,12 +131,19 @@ class FakeDraw:
             return s.value
         if isinstance(s, SampledFromStrategy):
             elems = list(s.elements)
-            if getattr(s, "_transformations", ()):
-                raise InfraError("scripted draw: transformed sampled_from")
             idx = self.chooser.choose(len(elems), "sampled_from")
             self._note_body(elems, idx)
             self.chooser.events.append(("sampled", elems[idx]))
-            return elems[idx]
+            value = elems[idx]
+            transformations = getattr(s, "_transformations", ())
+            if transformations:  # `.map(f)` / `.filter(f)` fused into the sampled_from strategy
+                value = copy.deepcopy(value)
+                for name, f, *_ in transformations:
+                    if name == "map":
+                        value = f(value)
+                    elif not f(value):
+                        raise UnsatisfiedAssumption()
+            return value
         if isinstance(s, BooleansStrategy):
             b = bool(self.chooser.choose(2, "booleans"))
             self.chooser.events.append(("bool", b))
@@ -236,7 +255,8 @@ def describe(operation):
         props = parameters_to_json_schema(operation, getattr(operation, container))["properties"]
         out[loc] = [[name, s, bool(can_negate(s)) and not (loc == "path" and PATH_VARIANT[0] == "repaired"
                                                             and s == {"type": "string"})] for name, s in props.items()]
-    out["body"] = [[bool(can_negate(item.as_json_schema(operation))), bool(item.is_required)]
+    out["body"] = [[bool(can_negate(item.as_json_schema(operation))) and
+                    not (BODY_VARIANT[0] == "repaired" and item.media_type in H.MEDIA_TYPES), bool(item.is_required)]
                    for item in (operation.body.items if operation.body else [])]
     return out
 
@@ -273,13 +293,17 @@ def known_value(schema, location, positive):
     out = {}
     for name, s in schema.get("properties", {}).items():
         t = s.get("type")
-        if t == "integer":
+        if "enum" in s:
+            # not a member as a Python value; `jsonify_python_specific_types` may spell it like one afterwards
+            out[name] = s["enum"][0] if positive else (True if "true" in s["enum"] else None)
+        elif t == "integer":
             out[name] = 1 if positive else "x"
         elif t == "boolean":
             out[name] = True if positive else "x"
         else:
             out[name] = "a"
-    if not positive and all(s.get("type") not in ("integer", "boolean") for s in schema.get("properties", {}).values()):
+    if not positive and all(s.get("type") not in ("integer", "boolean") and "enum" not in s
+                            for s in schema.get("properties", {}).values()):
         out["extra"] = "1"
     return out
 
@@ -464,8 +488,9 @@ def unquote_path(v):
     return urllib.parse.unquote_plus(v) if isinstance(v, str) else v
 
 
-def part_requests(op, case):
-    """('part', …) requests for every present part of `case` → [(kind, request)]"""
+def part_requests(op, case, strip=None):
+    """('part', …) requests for every present part of `case` → [(kind, request)]; `strip`: {location: names} supplied
+    by the caller that the operation does not declare (an Authorization header …) — not part of the judged value"""
     out = []
     for kind in KINDS:
         loc = LOC_OF_KIND[kind]
@@ -484,7 +509,8 @@ def part_requests(op, case):
             schema = location_schema(op, loc)
             if schema is None:
                 continue
-            v = {str(k): canon(unquote_path(x) if loc == "path" else x) for k, x in dict(value).items()}
+            v = {str(k): canon(unquote_path(x) if loc == "path" else x) for k, x in dict(value).items()
+                 if not (strip and k in strip.get(loc, ()))}
         out.append((kind, ("part", {"env": G.lean_env(schema, v), "schema": schema, "value": v})))
     return out
 
@@ -493,8 +519,9 @@ def judge_cases(chk, items, origin):
     """items: [(shape-or-raw, modes, choices-or-seed, case, operation)]"""
     drv = chk.driver()
     reqs, index = [], []
-    for n, (sh, modes, taken, case, op) in enumerate(items):
-        for kind, req in part_requests(op, case):
+    items = [tuple(it) + (None,) * (6 - len(it)) for it in items]
+    for n, (sh, modes, taken, case, op, strip) in enumerate(items):
+        for kind, req in part_requests(op, case, strip):
             reqs.append(req)
             index.append((n, kind))
     outs = drv.batch(reqs)
@@ -504,7 +531,7 @@ def judge_cases(chk, items, origin):
             raise InfraError(f"spec error {o} on {req}")
         verdicts.setdefault(n, {})[kind] = o
     sound_reqs = []
-    for n, (sh, modes, taken, case, op) in enumerate(items):
+    for n, (sh, modes, taken, case, op, _strip) in enumerate(items):
         meta = case.meta
         comps = [[k.value, v.mode.value] for k, v in meta.components.items()]
         v = verdicts.get(n, {})
@@ -524,7 +551,7 @@ def judge_cases(chk, items, origin):
         sound_reqs.append(("labelsSound", {"mode": meta.generation.mode.value, "components": comps, "present": present,
                                            "valid": valid, "absentOk": absent}))
     sounds = drv.batch(sound_reqs)
-    for n, ((sh, modes, taken, case, op), ok) in enumerate(zip(items, sounds)):
+    for n, ((sh, modes, taken, case, op, _strip), ok) in enumerate(zip(items, sounds)):
         meta = case.meta
         v = verdicts.get(n, {})
         comps = {k.value: c.mode.value for k, c in meta.components.items()}
@@ -558,8 +585,18 @@ def judge_cases(chk, items, origin):
             explained = True
         for k, mode in comps.items():
             if k in v and mode == "negative" and v[k]["raw"]:
-                chk.violation(f"C02:negative-label:{k}:value-conforms", f"the {k} part is labelled negative but conforms "
-                              "to the declared schema", rep)
+                spelled = k in ("query", "path_parameters") and any(
+                    x in ("true", "false", "null") for x in dict(getattr(case, k)).values() if isinstance(x, str))
+                if spelled:
+                    chk.violation(f"{KF_JSONIFY}:{LOC_OF_KIND[k]}", f"a {k} value that passed the final filter as True/False/"
+                                  "None is spelled 'true'/'false'/'null' afterwards (jsonify_python_specific_types) and "
+                                  "conforms to the declared schema, yet is labelled negative", rep)
+                elif k == "body" and case.media_type in H.MEDIA_TYPES:
+                    chk.violation(KF_CUSTOM_MEDIA, "the body comes from the strategy registered for its media type (the "
+                                  "user's own, conforming data) and is labelled negative", rep)
+                else:
+                    chk.violation(f"C02:negative-label:{k}:value-conforms", f"the {k} part is labelled negative but "
+                                  "conforms to the declared schema", rep)
                 explained = True
             if k in v and mode == "positive" and not v[k]["raw"]:
                 chk.violation(f"C02:positive-label:{k}:value-violates", f"the {k} part is labelled positive but violates "
@@ -1040,8 +1077,16 @@ def labels_real(chk, variant):
     n_ops, n_draws = chk.budget(10, 90), chk.budget(10, 15)
     judged = []
     reqs, obs = [], []
+    started = time.time()
     for i in range(n_ops):
         template, d, declared, body = gen_real_operation(rng)
+        if not chk.thorough and time.time() - started > 30:
+            # quick tier on a loaded machine: the remaining operations are left to the other seeds / the thorough tier
+            # (the generator is still consumed in the same way, so the later mechanisms see the same inputs)
+            chk.feature("labels:real:quick-time-budget-reached")
+            chk.notes.append(f"labels:real: operation {i + 1} of {n_ops} not drawn (30 s budget of the quick tier)")
+            rng.random()
+            continue
         raw = {"openapi": "3.0.2", "info": {"title": "t", "version": "1"}, "paths": {template: {"post": d}}}
         op = schemathesis.openapi.from_dict(raw)[template]["POST"]
         desc = describe(op)
@@ -1116,7 +1161,8 @@ def judge_real(chk, items):
     """Every labelled part of a real case, judged against the *declared* (raw OpenAPI) schema in request mode."""
     drv = chk.driver()
     reqs, index = [], []
-    for n, (key, modes, seed_, case, op, declared, body) in enumerate(items):
+    items = [tuple(it) + (None,) * (8 - len(it)) for it in items]
+    for n, (key, modes, seed_, case, op, declared, body, strip) in enumerate(items):
         for kind in KINDS:
             loc = LOC_OF_KIND[kind]
             value = getattr(case, kind)
@@ -1131,7 +1177,8 @@ def judge_real(chk, items):
                 if value is None or declared[loc] is None:
                     continue
                 schema = declared[loc]
-                v = {str(k): canon(unquote_path(x) if loc == "path" else x) for k, x in dict(value).items()}
+                v = {str(k): canon(unquote_path(x) if loc == "path" else x) for k, x in dict(value).items()
+                     if not (strip and k in strip.get(loc, ()))}
             if inexact(v):
                 chk.feature("replay:real:skipped-inexact-number")
                 index.append((n, kind, None))
@@ -1154,7 +1201,7 @@ def judge_real(chk, items):
         if ref is not None and ref != o["raw"]:
             raise InfraError(f"Lean validF (request mode) != jsonschema on {json.dumps(reqs[ri][1])[:600]}: lean={o['raw']} ref={ref}")
         verdicts.setdefault(n, {})[kind] = o
-    for n, (key, modes, seed_, case, op, declared, body) in enumerate(items):
+    for n, (key, modes, seed_, case, op, declared, body, _strip) in enumerate(items):
         meta = case.meta
         v = verdicts.get(n, {})
         comps = {k.value: c.mode.value for k, c in meta.components.items()}
@@ -1182,8 +1229,19 @@ def judge_real(chk, items):
                     continue
                 any_neg = True
                 if v[k]["raw"]:
-                    chk.violation(f"C02:negative-label:{k}:value-conforms", f"the {k} part is labelled negative but "
-                                  "conforms to the declared schema", rep)
+                    spelled = k in ("query", "path_parameters") and any(
+                        x in ("true", "false", "null") for x in dict(value).values() if isinstance(x, str))
+                    if spelled:
+                        chk.violation(f"{KF_JSONIFY}:{LOC_OF_KIND[k]}", f"a {k} value that passed the final filter as True/"
+                                      "False/None is spelled 'true'/'false'/'null' afterwards "
+                                      "(jsonify_python_specific_types) and conforms to the declared schema, yet is "
+                                      "labelled negative", rep)
+                    elif k == "body" and case.media_type in H.MEDIA_TYPES:
+                        chk.violation(KF_CUSTOM_MEDIA, "the body comes from the strategy registered for its media type "
+                                      "(the user's own, conforming data) and is labelled negative", rep)
+                    else:
+                        chk.violation(f"C02:negative-label:{k}:value-conforms", f"the {k} part is labelled negative but "
+                                      "conforms to the declared schema", rep)
                 elif k != "body" and v[k]["coerced"]:
                     chk.violation(KF_WIRE, f"the {k} part is labelled negative but its wire spelling conforms to the "
                                            "declared schema", rep)
@@ -1340,19 +1398,778 @@ class GuidedDraw(FakeDraw):
         return super().__call__(strategy, label)
 
 
+# ---- explicitly supplied values ---------------------------------------------------------------------------------------
+
+KF_SUPPLIED_COUNTED = {"header": "C02:can_negate_headers:supplied-parameters-counted:remaining-string-only",
+                       "cookie": "C02:can_negate_headers:supplied-parameters-counted:remaining-string-only",
+                       "path": "C02:can_negate_path_parameters:supplied-parameters-counted:remaining-string-only"}
+KF_EQUAL_TO_EXPLICIT = "C02:generate_parameter:value-equal-to-explicit-drops-generator:SkipTest"
+KF_JSONIFY = "C02:get_parameters_strategy:jsonify-after-the-final-filter:value-conforms"
+KF_CUSTOM_MEDIA = "C02:openapi_cases:registered-media-type-strategy-labelled-negative"
+CUSTOM_MEDIA = "application/x-verif"
+CUSTOM_SCHEMA = {"type": "string", "format": "binary"}
+BODY_VARIANT = ["asFound"]
+EXPLICIT_KW = {"path": "path_parameters", "header": "headers", "cookie": "cookies", "query": "query"}
+PARAM_LOCS = ("path", "header", "cookie", "query")
+X_VARIANTS = {"labels": "repaired", "exclusion": "asFound", "unchanged": "asFound"}
+
+
+def _has_not_set_branch(s):
+    while isinstance(s, LazyStrategy):
+        s = s.wrapped_strategy
+    if not isinstance(s, OneOfStrategy):
+        return False
+    for b in s.original_strategies:
+        while isinstance(b, LazyStrategy):
+            b = b.wrapped_strategy
+        if isinstance(b, JustStrategy) and isinstance(b.value, type(NOT_SET)):
+            return True
+    return False
+
+
+class Tap:
+    """Observation points inside the real `openapi_cases` machinery (no behaviour is changed unless `scripted`):
+      * the two strategy factories (what schema they are asked for) — replaced by known-value strategies if `scripted`;
+      * `get_parameters_strategy` (which strategy a location gets: `st.none()` or a factory strategy, also when the
+        answer comes from `_PARAMETER_STRATEGIES_CACHE`);
+      * `get_parameters_value` (what was drawn for the location, before merging with the explicit part);
+      * `ValueContainer` (value and generator per location, also for skipped / rejected executions);
+      * `_get_body_strategy` (registered media-type strategy / factory strategy with or without the NOT_SET alternative,
+        also when the answer comes from `_BODY_STRATEGIES_CACHE`).
+    One record per execution of the `openapi_cases` body."""
+
+    def __init__(self, scripted):
+        self.scripted = scripted
+        self.records, self.memo, self.keep, self.factory_calls = [], {}, [], []
+
+    def new_record(self):
+        self.records.append({"draws": {}, "attempted": [], "strats": {}, "containers": {}, "case": None})
+        return self.records[-1]
+
+    def __enter__(self):
+        tap = self
+        self.saved = (H.make_positive_strategy, H.make_negative_strategy, dict(H.GENERATOR_MODE_TO_STRATEGY_FACTORY),
+                      H.get_parameters_strategy, H.get_parameters_value, H.ValueContainer, H._get_body_strategy)
+        real_pos, real_neg, _, real_gps, real_gpv, real_vc, real_gbs = self.saved
+        self.bmemo = {}
+
+        def gbs(parameter, strategy_factory, operation, generation_config):
+            n = len(tap.factory_calls)
+            strat = real_gbs(parameter, strategy_factory, operation, generation_config)
+            if parameter.media_type in H.MEDIA_TYPES and strat is H.MEDIA_TYPES[parameter.media_type]:
+                obs = "custom"
+            else:
+                if len(tap.factory_calls) > n:
+                    tap.bmemo[id(strat)] = tap.factory_calls[-1][1]
+                    tap.keep.append(strat)
+                obs = {"factory": tap.bmemo.get(id(strat), "unknown"), "orAbsent": _has_not_set_branch(strat)}
+            if tap.records:
+                tap.records[-1]["bodyStrat"] = {"media_type": parameter.media_type, "obs": obs}
+            return strat
+
+        def note(schema, location, mode):
+            props = schema.get("properties") if isinstance(schema.get("properties"), dict) else {}
+            req = schema.get("required") if isinstance(schema.get("required"), list) else []
+            tap.factory_calls.append((location, mode, sorted(map(str, props)), sorted(map(str, req))))
+
+        def pos(schema, operation_name, location, media_type, generation_config, custom_formats=None):
+            note(schema, location, "positive")
+            if tap.scripted:
+                return st.sampled_from(scripted_values(schema, location, True))
+            return real_pos(schema, operation_name, location, media_type, generation_config, custom_formats)
+
+        def neg(schema, operation_name, location, media_type, generation_config, custom_formats=None):
+            note(schema, location, "negative")
+            if tap.scripted:
+                return st.sampled_from(scripted_values(schema, location, False))
+            return real_neg(schema, operation_name, location, media_type, generation_config, custom_formats)
+
+        def gps(operation, strategy_factory, location, generation_config, exclude=()):
+            n = len(tap.factory_calls)
+            strat = real_gps(operation, strategy_factory, location, generation_config, exclude=exclude)
+            if len(tap.factory_calls) > n:
+                _, mode, props, req = tap.factory_calls[-1]
+                obs = {"factory": mode, "props": props, "required": req}
+                tap.memo[id(strat)] = obs
+                tap.keep.append(strat)
+            else:
+                # no factory was asked now, nor when this (cached) object was built: nothing is generated here
+                obs = tap.memo.get(id(strat), "none")
+            if tap.records:
+                tap.records[-1]["strats"][location] = obs
+            return strat
+
+        def gpv(value, location, draw, operation, context, hooks, strategy_factory, generation_config):
+            last = tap.records[-1] if tap.records else None
+            fresh = last is None or location in last["attempted"] or "body" in last["containers"] or last["case"] is not None
+            rec = tap.new_record() if fresh else last
+            rec["attempted"].append(location)
+
+            def tapped(strategy, label=None):
+                v = draw(strategy)
+                rec["draws"][location] = copy.deepcopy(v)
+                return v
+
+            return real_gpv(value, location, tapped, operation, context, hooks, strategy_factory, generation_config)
+
+        class Recording(real_vc):
+            __slots__ = ()
+
+            def __init__(self, *a, **k):
+                super().__init__(*a, **k)
+                if tap.records:
+                    tap.records[-1]["containers"][self.location] = self
+
+        H.make_positive_strategy, H.make_negative_strategy = pos, neg
+        H.GENERATOR_MODE_TO_STRATEGY_FACTORY[GenerationMode.POSITIVE] = pos
+        H.GENERATOR_MODE_TO_STRATEGY_FACTORY[GenerationMode.NEGATIVE] = neg
+        H.get_parameters_strategy, H.get_parameters_value, H.ValueContainer = gps, gpv, Recording
+        H._get_body_strategy = gbs
+        return self
+
+    def __exit__(self, *exc):
+        (H.make_positive_strategy, H.make_negative_strategy, table, H.get_parameters_strategy, H.get_parameters_value,
+         H.ValueContainer, H._get_body_strategy) = self.saved
+        H.GENERATOR_MODE_TO_STRATEGY_FACTORY.clear()
+        H.GENERATOR_MODE_TO_STRATEGY_FACTORY.update(table)
+        return False
+
+
+def scripted_values(schema, location, positive):
+    """Values of known validity for the (possibly reduced) location schema; the negative factory may also omit every
+    parameter (only when one is required, so that `{}` really violates the schema)."""
+    base = known_value(schema, location, positive)
+    if location == "body":
+        return [base]
+    out = [base]
+    required = schema.get("required") or []
+    if not positive and required:
+        out.append({})
+    return out
+
+
+X_PARAMS = {
+    "path": {"none": [], "neg": [("p", {"type": "integer"})], "str": [("p", {"type": "string"})],
+             "mixed": [("p", {"type": "string"}), ("p2", {"type": "integer"})], "enum": [("p", {"enum": ["null", "a"]})]},
+    "header": {"none": [], "neg": [("X-A", {"type": "integer"})], "unneg": [("X-A", {"type": "string"})],
+               "mixed": [("X-A", {"type": "string"}), ("X-B", {"type": "boolean"})],
+               "mixed2": [("X-A", {"type": "integer"}), ("X-B", {"type": "string"})],
+               "two": [("X-A", {"type": "integer"}), ("X-B", {"type": "boolean"})]},
+    "cookie": {"none": [], "neg": [("c", {"type": "integer"})], "unneg": [("c", {"type": "string"})],
+               "mixed2": [("c", {"type": "integer"}), ("c2", {"type": "string"})],
+               "two": [("c", {"type": "integer"}), ("c2", {"type": "boolean"})]},
+    "query": {"none": [], "neg": [("q", {"type": "integer"})], "str": [("q", {"type": "string"})],
+              "two": [("q", {"type": "integer"}), ("r", {"type": "string"})],
+              "enum": [("q", {"enum": ["true", "false"]})]},
+}
+
+
+def explicit_choices(params):
+    """what the caller may supply for a location: nothing, `{}`, every non-empty subset of the declared names, and an
+    undeclared name (alone / with the first declared one)"""
+    names = [n for n, _ in params]
+    out = [None, []]
+    for mask in range(1, 2 ** len(names)):
+        out.append([n for i, n in enumerate(names) if mask >> i & 1])
+    out.append(["zz"])
+    if names:
+        out.append([names[0], "zz"])
+    return out
+
+
+def make_x_operation(shape, index):
+    params = []
+    for loc in PARAM_LOCS:
+        for name, schema in X_PARAMS[loc][shape[loc]]:
+            p = {"name": name, "in": loc, "schema": copy.deepcopy(schema)}
+            if loc == "path" or shape["required"]:
+                p["required"] = True
+            params.append(p)
+    d = {"parameters": params, "responses": {"200": {"description": "OK"}}}
+    if shape["body"]:
+        content = {}
+        for i, neg in enumerate(shape["body"]):
+            if neg == "custom":
+                content[CUSTOM_MEDIA] = {"schema": copy.deepcopy(CUSTOM_SCHEMA)}
+            else:
+                content[MEDIA[i]] = {"schema": ({"type": "integer"} if neg else {})}
+        d["requestBody"] = {"required": bool(shape["body_required"]), "content": content}
+    template = f"/x{index}" + "".join(f"/{{{n}}}" for n, _ in X_PARAMS["path"][shape["path"]])
+    return template, d
+
+
+def explicit_kwargs(shape_or_op_def, explicit):
+    """explicit: {loc: [names]|None, "body": {"set": bool, "value": v}} → keyword arguments of openapi_cases"""
+    declared = {(p["in"], p["name"]): p["schema"] for p in shape_or_op_def["parameters"]}
+    kw = {}
+    for loc in PARAM_LOCS:
+        names = explicit.get(loc)
+        if names is None:
+            continue
+        kw[EXPLICIT_KW[loc]] = {n: conforming_value(declared.get((loc, n), {})) for n in names}
+    if explicit.get("body", {}).get("set"):
+        kw["body"] = explicit["body"]["value"]
+        kw["media_type"] = "application/json"
+    return kw
+
+
+def lean_explicit(kw):
+    out = {loc: (None if EXPLICIT_KW[loc] not in kw else [[k, canon(v)] for k, v in kw[EXPLICIT_KW[loc]].items()])
+           for loc in PARAM_LOCS}
+    out["body"] = {"set": "body" in kw, "value": canon(kw["body"]) if "body" in kw else None}
+    return out
+
+
+def reqs_of(operation):
+    out = {}
+    for loc in PARAM_LOCS:
+        s = location_schema(operation, loc)
+        out[loc] = [] if s is None else [str(x) for x in s.get("required", [])]
+    return out
+
+
+def record_draws(rec, body_idx=0):
+    """the `Draws` of the Lean model read off one Tap record"""
+    d = {}
+    for loc in PARAM_LOCS:
+        v = rec["draws"].get(loc)
+        d[loc] = None if v is None else canon(dict(v))
+    c = rec["containers"].get("body")
+    b = c.value if c is not None else NOT_SET
+    d["bodyIdx"] = body_idx
+    d["body"] = {"set": not isinstance(b, type(NOT_SET)), "value": None if isinstance(b, type(NOT_SET)) else canon(b)}
+    return d
+
+
+def observed_x(rec, kind, case):
+    conts = rec["containers"]
+    values, gens = {}, {}
+    for loc in PARAM_LOCS + ("body",):
+        c = conts.get(loc)
+        if c is None:
+            continue
+        absent = isinstance(c.value, type(NOT_SET)) if loc == "body" else c.value is None
+        values[loc] = {"set": not absent, "value": None if absent else canon(dict(c.value) if loc != "body" else c.value)}
+        gens[loc] = c.generator.value if c.generator is not None else None
+    return {"outcome": kind if case is None else observed(case), "values": values, "generators": gens,
+            "strategies": {loc: canon_strategy(rec["strats"].get(loc)) for loc in PARAM_LOCS}}
+
+
+def canon_strategy(s_):
+    """`st.none()` and the positive factory over an empty set of parameters both generate nothing"""
+    if isinstance(s_, dict) and s_.get("factory") == "positive" and not s_.get("props"):
+        return "none"
+    return s_
+
+
+def model_x(m):
+    inv = {v: k for k, v in LOC_OF_KIND.items()}
+    back = lambda k: LOC_OF_KIND[k]
+    strat = lambda s: canon_strategy(s if isinstance(s, str) else {"factory": s["factory"], "props": sorted(s["props"]),
+                                                                   "required": sorted(s["required"])})
+    return {"outcome": model_outcome(m),
+            "values": {back(k): {"set": v["set"], "value": canon(v["value"]) if v["set"] else None} for k, v in m["values"]},
+            "generators": {back(k): g for k, g in m["generators"]},
+            "strategies": {back(k): strat(s) for k, s in m["strategies"]}}
+
+
+def detect_x_variants(chk):
+    """Witnesses of FC02d / FC02e on the real code (scripted draws, known-value factories)."""
+    def witness(header_shape, prefix):
+        shape = {"path": "none", "header": header_shape, "cookie": "none", "query": "neg", "required": True, "body": [],
+                 "body_required": False}
+        template, d = make_x_operation(shape, 0)
+        raw = {"openapi": "3.0.2", "info": {"title": "t", "version": "1"}, "paths": {template: {"post": d}}}
+        op = schemathesis.openapi.from_dict(raw)[template]["POST"]
+        with Tap(scripted=True) as tap:
+            run_openapi_cases_x(op, [GenerationMode.NEGATIVE], Chooser(prefix), explicit_kwargs(d, {"header": ["X-A"]}))
+        return tap.records[-1]
+
+    # X-A: integer supplied, X-B: string left — which factory is asked for the lone string header?
+    strat = witness("mixed2", []).get("strats", {}).get("header")
+    X_VARIANTS["exclusion"] = "asFound" if isinstance(strat, dict) and strat["factory"] == "negative" else "repaired"
+    # X-A: integer supplied, X-B: boolean (required) left — the negative draw `{}` (choice 1) omits X-B
+    c = witness("two", [1])["containers"].get("header")
+    X_VARIANTS["unchanged"] = "asFound" if c is not None and c.generator is None else "repaired"
+    chk.variants["can_negate-over-supplied-parameters"] = X_VARIANTS["exclusion"]
+    chk.variants["value-equal-to-explicit"] = X_VARIANTS["unchanged"]
+
+
+def run_openapi_cases_x(operation, modes, chooser, kw):
+    """One execution of the real `openapi_cases` body with explicit arguments under a scripted draw (inside a Tap)."""
+    draw = FakeDraw(chooser)
+    cfg = GenerationConfig(modes=list(modes))
+    try:
+        comp = H.openapi_cases(operation=operation, generation_mode=GenerationMode.NEGATIVE, generation_config=cfg, **kw)
+        while isinstance(comp, LazyStrategy):
+            comp = comp.wrapped_strategy
+        return "case", comp.definition(draw, *comp.args, **comp.kwargs), draw.body_idx
+    except SkipTest:
+        return "skip", None, draw.body_idx
+    except UnsatisfiedAssumption:
+        return "reject", None, draw.body_idx
+
+
+def x_shapes(rng, n_random):
+    """systematic part: every parameter shape of every location with every explicit choice (the other locations: a
+    negatable or an un-negatable query, nothing else); random part: all dimensions at once"""
+    base = {"path": "none", "header": "none", "cookie": "none", "query": "none", "required": False, "body": [],
+            "body_required": False}
+    out = []
+    for loc in PARAM_LOCS:
+        for name, params in X_PARAMS[loc].items():
+            if not params:
+                continue
+            for choice in explicit_choices(params):
+                if choice is None:
+                    continue
+                for required in (False, True):
+                    for other in ("none", "neg") if loc != "query" else ("none",):
+                        sh = dict(base, **{loc: name}, required=required)
+                        if loc != "query":
+                            sh["query"] = other
+                        out.append((sh, {loc: choice}))
+    for body in ([True], [False], [True, False]):
+        for q in ("none", "neg"):
+            out.append((dict(base, query=q, body=body, body_required=True), {"body": {"set": True, "value": 1}}))
+    for body in (["custom"], ["custom", True], ["custom", False], [True, "custom"], [True], [False], [True, False]):
+        for q in ("none", "neg"):
+            for req in (False, True):
+                out.append((dict(base, query=q, body=body, body_required=req), {}))
+    for _ in range(n_random):
+        sh = {loc: rng.choice(list(X_PARAMS[loc])) for loc in PARAM_LOCS}
+        sh.update(required=rng.random() < 0.5,
+                  body=rng.choice([[], [], [True], [False], [True, False], ["custom"], ["custom", True], [False, "custom"]]),
+                  body_required=rng.random() < 0.5)
+        ex = {}
+        for loc in PARAM_LOCS:
+            if rng.random() < 0.6:
+                ex[loc] = rng.choice(explicit_choices(X_PARAMS[loc][sh[loc]]))
+        if sh["body"] and rng.random() < 0.3:
+            ex["body"] = {"set": True, "value": rng.choice([1, "x"])}
+        out.append((sh, ex))
+    return out
+
+
+def register_custom_media():
+    from schemathesis.specs.openapi.media_types import register_media_type
+    if CUSTOM_MEDIA not in H.MEDIA_TYPES:
+        register_media_type(CUSTOM_MEDIA, st.just(b"DEMO"))
+
+
+def detect_body_variant(chk):
+    """Witness of FC02g: is the value of a registered media-type strategy labelled negative?"""
+    register_custom_media()
+    shape = {"path": "none", "header": "none", "cookie": "none", "query": "none", "required": False, "body": ["custom"],
+             "body_required": True}
+    template, d = make_x_operation(shape, 0)
+    raw = {"openapi": "3.0.2", "info": {"title": "t", "version": "1"}, "paths": {template: {"post": d}}}
+    op = schemathesis.openapi.from_dict(raw)[template]["POST"]
+    with Tap(scripted=True):
+        kind, case, _ = run_openapi_cases_x(op, [GenerationMode.NEGATIVE], Chooser(), {})
+    labelled = case is not None and any(k.value == "body" and v.mode.value == "negative" for k, v in case.meta.components.items())
+    BODY_VARIANT[0] = "asFound" if labelled else "repaired"
+    chk.variants["registered-media-type-as-negation-candidate"] = BODY_VARIANT[0]
+
+
+def labels_explicit(chk):
+    """The real `openapi_cases` with explicit arguments under scripted draws (every choice sequence) against the Lean
+    `openapiCasesX`: outcome, labels, the value of every location, the generator of every container and the strategy
+    `get_parameters_strategy` handed out (through its cache: the explicit choices of one parameter shape run on the
+    same operation object, one after the other)."""
+    rng = chk.rng
+    shapes = x_shapes(rng, chk.budget(60, 1500))
+    if not chk.thorough:
+        systematic = [s for s in shapes[:-60]]
+        with_custom = [s for s in systematic if "custom" in s[0]["body"]]
+        rest = [s for s in systematic if "custom" not in s[0]["body"]]
+        shapes = rng.sample(rest, min(len(rest), 160)) + rng.sample(with_custom, 8) + shapes[-60:]
+    # one operation object per distinct parameter shape: explicit choices share it (and its strategy cache)
+    ops, defs = {}, {}
+    keys = []
+    for sh, ex in shapes:
+        k = json.dumps(sh, sort_keys=True)
+        keys.append(k)
+        if k not in defs:
+            defs[k] = make_x_operation(sh, len(defs))
+    raw = {"openapi": "3.0.2", "info": {"title": "t", "version": "1"},
+           "paths": {template: {"post": d} for template, d in defs.values()}}
+    schema = schemathesis.openapi.from_dict(raw)
+    for k, (template, d) in defs.items():
+        ops[k] = schema[template]["POST"]
+    reqs, cases, judge = [], [], []
+    breqs, bobs = [], []
+    with Tap(scripted=True) as tap:
+        for (sh, ex), k in zip(shapes, keys):
+            op, d = ops[k], defs[k][1]
+            kw = explicit_kwargs(d, ex)
+            desc, rq, lex = describe(op), reqs_of(op), lean_explicit(kw)
+            for modes in ([GenerationMode.NEGATIVE], [GenerationMode.POSITIVE, GenerationMode.NEGATIVE]):
+                prefix = []
+                while prefix is not None:
+                    ch = Chooser(prefix)
+                    n0 = len(tap.records)
+                    kind, case, body_idx = run_openapi_cases_x(op, modes, ch, kw)
+                    prefix = next_prefix(ch.taken, ch.arity)
+                    if len(tap.records) == n0:
+                        raise InfraError("labels:explicit: no tap record for an execution of openapi_cases")
+                    rec = tap.records[-1]
+                    a = {"variants": dict(X_VARIANTS), "op": desc, "reqs": rq, "explicit": lex, "only": len(modes) == 1,
+                         "mode": "negative", "draws": record_draws(rec, body_idx)}
+                    reqs.append(("labelsX", a))
+                    cases.append((sh, ex, modes, list(ch.taken), observed_x(rec, kind, case), case, op))
+                    if op.body and "body" not in kw and "bodyStrat" in rec:
+                        items = [[bool(can_negate(it.as_json_schema(op))), bool(it.is_required), it.media_type in H.MEDIA_TYPES]
+                                 for it in op.body.items]
+                        breqs.append(("bodyStrat", {"variant": BODY_VARIANT[0], "mode": "negative", "items": items}))
+                        c = rec["containers"].get("body")
+                        bobs.append(({"shape": sh, "only": len(modes) == 1, "choices": list(ch.taken)}, body_idx,
+                                     rec["bodyStrat"], c.generator.value if c is not None and c.generator else None))
+    bouts = chk.driver().batch(breqs)
+    for (key, body_idx, seen, gen), m, (_, a) in zip(bobs, bouts, breqs):
+        if "__err__" in m:
+            raise InfraError(f"model error {m} on {a}")
+        chosen = m["candidates"][body_idx] if body_idx < len(m["candidates"]) else None
+        model = {"generator": m["generator"], "strategy": m["strategies"][body_idx] if chosen else None,
+                 "custom": chosen[2] if chosen else None}
+        impl = {"generator": gen if gen is not None else m["generator"], "strategy": seen["obs"],
+                "custom": seen["media_type"] in H.MEDIA_TYPES}
+        chk.case("body:strategy", key=[key, a], nontrivial=True, sample={"in": key, "impl": impl})
+        chk.feature(f"body:strategy:{seen['obs'] if isinstance(seen['obs'], str) else seen['obs']['factory']}")
+        if model != impl:
+            chk.disagreement("body:strategy", {**key, "lean": a}, model, impl)
+    outs = chk.driver().batch(reqs)
+    for (sh, ex, modes, taken, impl, case, op), m, (_, a) in zip(cases, outs, reqs):
+        if "__err__" in m:
+            raise InfraError(f"model error {m} on {a}")
+        model = model_x(m)
+        key = {"shape": sh, "explicit": ex, "only": len(modes) == 1, "choices": taken}
+        chk.case("labels:explicit", key=key, nontrivial=True, sample={"shape": sh, "explicit": ex, "impl": impl["outcome"]})
+        chk.feature(f"labels:explicit:{impl['outcome'] if isinstance(impl['outcome'], str) else 'case'}")
+        for loc in PARAM_LOCS:
+            s = impl["strategies"].get(loc)
+            chk.feature(f"labels:explicit:strategy:{s if isinstance(s, str) or s is None else s['factory']}")
+        # compare only what the execution reached: a draw rejected by a filter stops early
+        impl["strategies"] = {k: v for k, v in impl["strategies"].items() if v is not None}
+        for part in ("values", "generators", "strategies"):
+            model[part] = {k: v for k, v in model[part].items() if k in impl[part]}
+        if model != impl:
+            chk.disagreement("labels:explicit", {"shape": sh, "explicit": ex, "only": len(modes) == 1, "choices": taken,
+                                                 "lean": a}, model, impl)
+        if not m["negatable"] and case is not None:
+            chk.violation("C02:openapi_cases:case-produced-although-nothing-negatable",
+                          "nothing that is left to generate can be negated, yet a case was produced in negative mode",
+                          {"kind": "scripted-explicit", "shape": sh, "explicit": ex, "modes": [x.value for x in modes],
+                           "choices": taken, "impl": impl["outcome"]})
+        if case is not None:
+            declared = {loc: {n for n, _ in X_PARAMS[loc][sh[loc]]} for loc in PARAM_LOCS}
+            strip = {loc: {n for n in (ex.get(loc) or []) if n not in declared[loc]} for loc in PARAM_LOCS}
+            judge.append(({"shape": sh, "explicit": ex}, modes, taken, case, op, strip))
+    judge_cases(chk, judge, "scripted-explicit")
+
+
+X_PRIM = [
+    {"type": "integer"}, {"type": "integer", "minimum": 2}, {"type": "boolean"}, {"type": "string"},
+    {"type": "string", "minLength": 2}, {"type": "string", "enum": ["a", "b"]}, {"type": "string", "pattern": "^[a-c]+$"},
+    {"type": "number", "maximum": 3},
+]
+X_NONSTRING = [s_ for s_ in X_PRIM if s_ != {"type": "string"}]
+X_BODIES = [{"type": "integer"}, {"type": "object", "properties": {"a": {"type": "integer"}}, "required": ["a"]}, {}]
+X_NAMES = {"path": ["id", "key"], "query": ["q", "r"], "header": ["X-A", "X-B"], "cookie": ["c", "d"]}
+
+
+def conforming_value(schema):
+    if "enum" in schema:
+        return schema["enum"][0]
+    t = schema.get("type")
+    if t == "integer":
+        return max(schema.get("minimum", 1), 1)
+    if t == "number":
+        return 1
+    if t == "boolean":
+        return True
+    return "abc"
+
+
+def x_scenarios(rng, n_random):
+    """[(name, {loc: [(param name, schema, required, supplied)]}, body schema | None, body supplied)] — the systematic
+    scenarios put one location entirely / partly into the caller's hands next to an input that can be violated"""
+    pick = lambda pool: copy.deepcopy(rng.choice(pool))
+    viol = lambda loc: [(X_NAMES[loc][0], pick([{"type": "integer"}, {"type": "integer", "minimum": 2}, {"type": "boolean"}]),
+                         rng.random() < 0.5, False)]
+    out = []
+    for loc in ("header", "cookie", "query", "path"):
+        other = "query" if loc != "query" else "header"
+        k = rng.choice([1, 2])
+        schemas = [pick(X_NONSTRING)] + [pick(X_PRIM) for _ in range(k - 1)]
+        rng.shuffle(schemas)
+        supplied_all = [(n, sc, loc == "path" or rng.random() < 0.6, True) for n, sc in zip(X_NAMES[loc], schemas)]
+        out.append((f"all-supplied:{loc}", {loc: supplied_all, other: viol(other)}, None, False))
+    for loc in ("header", "cookie", "path"):
+        # the supplied parameter is the only one that is not a plain string
+        part = [(X_NAMES[loc][0], pick(X_NONSTRING), loc == "path" or rng.random() < 0.5, True),
+                (X_NAMES[loc][1], {"type": "string"}, loc == "path", False)]
+        out.append((f"non-string-supplied:{loc}", {loc: part, "query": viol("query")}, None, False))
+        if loc == "path":
+            continue
+        # the parameter left to generate is required and can be violated
+        part = [(X_NAMES[loc][0], pick(X_NONSTRING), rng.random() < 0.5, True),
+                (X_NAMES[loc][1], pick([{"type": "integer"}, {"type": "boolean"}]), True, False)]
+        out.append((f"required-left:{loc}", {loc: part}, None, False))
+    out.append(("body-supplied", {"query": viol("query")}, {"type": "integer"}, True))
+    # a parameter whose enum holds the spelling of a JSON literal (True/False/None are re-spelled after the final filter)
+    out.append(("literal-spelling", {"path": [("id", {"enum": ["null", "a"]}, True, False)]}, None, False))
+    for _ in range(n_random):
+        params = {}
+        for loc in PARAM_LOCS:
+            k = rng.choice([0, 1, 1, 2])
+            params[loc] = [(n, pick(X_PRIM), loc == "path" or rng.random() < 0.5, rng.random() < 0.5)
+                           for n in X_NAMES[loc][:k]]
+        body = pick(X_BODIES) if rng.random() < 0.5 else None
+        out.append(("random", params, body, body is not None and rng.random() < 0.3))
+    return out
+
+
+def build_x_real(name, params, body, body_supplied, rng):
+    plist, declared, kw = [], {}, {}
+    for loc in PARAM_LOCS:
+        props, required = {}, []
+        for pname, sc, req, supplied in params.get(loc, []):
+            p = {"name": pname, "in": loc, "schema": sc}
+            if req:
+                p["required"] = True
+                required.append(pname)
+            plist.append(p)
+            props[pname] = sc
+            if supplied:
+                kw.setdefault(EXPLICIT_KW[loc], {})[pname] = conforming_value(sc)
+        declared[loc] = {"type": "object", "properties": props, "required": required,
+                         "additionalProperties": False} if props else None
+    strip = {}
+    if rng.random() < 0.3:  # credentials the operation does not declare
+        kw.setdefault("headers", {})["Authorization"] = "Bearer t"
+        strip["header"] = {"Authorization"}
+    d = {"parameters": plist, "responses": {"200": {"description": "OK"}}}
+    body_def = None
+    if body is not None:
+        body_def = {"required": rng.random() < 0.5, "content": {"application/json": {"schema": body}}}
+        d["requestBody"] = body_def
+        if body_supplied:
+            kw["body"] = conforming_value(body) if body.get("type") != "object" else {"a": 1}
+            kw["media_type"] = "application/json"
+    template = "/r" + "".join(f"/{{{p['name']}}}" for p in plist if p["in"] == "path")
+    return template, d, declared, body_def, kw, strip
+
+
+def draw_real_tapped(strategy, n, seed_, tap):
+    out = []
+
+    @hypothesis.seed(seed_)
+    @settings(max_examples=n, database=None, suppress_health_check=list(HealthCheck), phases=[Phase.generate],
+              deadline=None, derandomize=False)
+    @given(x=strategy)
+    def collect(x):
+        out.append(x)
+        if tap.records:
+            tap.records[-1]["case"] = x
+
+    try:
+        collect()
+        return out, None
+    except SkipTest:
+        return out, "skip"
+    except Unsatisfiable:
+        return out, "reject"
+    except KeyError as e:
+        return out, f"KeyError:{e}"
+    except (hypothesis.errors.InvalidArgument, hypothesis.errors.FailedHealthCheck) as e:
+        return out, f"error:{type(e).__name__}"
+
+
+def strictly_violable(chk, items):
+    """Inputs left to generate that can certainly be violated, judged by the reference semantics only: a parameter
+    whose declared schema rejects some wire spelling; a body whose schema rejects some instance.
+    items: [(declared, body_def, kw)] → one list of 'location:name' / 'body' per item"""
+    reqs, what = [], []
+    for n, (declared, body_def, kw) in enumerate(items):
+        for loc in PARAM_LOCS:
+            if declared[loc] is None:
+                continue
+            supplied = set(kw.get(EXPLICIT_KW[loc], {}))
+            for name, sc in declared[loc]["properties"].items():
+                if name in supplied:
+                    continue
+                single = {"type": "object", "properties": {name: sc}, "required": [], "additionalProperties": False}
+                for w in WIRE_PANEL:
+                    reqs.append(("part", {"env": G.lean_env(single, {name: w}), "schema": single, "value": {name: w}}))
+                    what.append((n, f"{loc}:{name}"))
+        if body_def is not None and "body" not in kw:
+            sc = body_def["content"]["application/json"]["schema"]
+            for v in UNIVERSE:
+                reqs.append(("valid", {"env": G.lean_env(sc, v), "schema": sc, "instance": v}))
+                what.append((n, "body"))
+    outs = chk.driver().batch(reqs)
+    found = [[] for _ in items]
+    for (n, w), o in zip(what, outs):
+        if isinstance(o, dict) and "__err__" in o:
+            raise InfraError(f"spec error {o}")
+        rejected = (o is False) if w == "body" else (o["coerced"] is False)
+        if rejected and w not in found[n]:
+            found[n].append(w)
+    return found
+
+
+def abstract_real(a, impl):
+    """Real draws contain arbitrary text and floats that do not survive the JSON line protocol unchanged; the model only
+    moves values around, so every value is replaced by a digest and every undeclared key by a token (consistently in
+    the request and in the observation)."""
+    import hashlib
+    keep = {n for loc in PARAM_LOCS for n, _, _ in a["op"][loc]}
+    keep |= {k for loc in PARAM_LOCS for k, _ in (a["explicit"][loc] or [])}
+    tokens = {}
+
+    def key(k):
+        if k in keep:
+            return k
+        return tokens.setdefault(k, f"~{len(tokens)}")
+
+    def val(v):
+        return "#" + hashlib.sha1(json.dumps(v, sort_keys=True, ensure_ascii=True, default=str).encode()).hexdigest()[:12]
+
+    def obj(d):
+        return None if d is None else {key(k): val(v) for k, v in d.items()}
+
+    a = copy.deepcopy(a)
+    impl = copy.deepcopy(impl)
+    for loc in PARAM_LOCS:
+        a["draws"][loc] = obj(a["draws"][loc])
+        if a["explicit"][loc] is not None:
+            a["explicit"][loc] = [[k, val(v)] for k, v in a["explicit"][loc]]
+        if loc in impl["values"] and impl["values"][loc]["set"]:
+            impl["values"][loc]["value"] = obj(impl["values"][loc]["value"])
+    for side in (a["draws"]["body"], a["explicit"]["body"], impl["values"].get("body")):
+        if side and side["set"]:
+            side["value"] = val(side["value"])
+    return a, impl
+
+
+def explicit_real(chk):
+    """Real Hypothesis draws from `as_strategy(NEGATIVE, headers=…, query=…, …)`: every execution of `openapi_cases`
+    that reached the labelling step is compared with the Lean `openapiCasesX` (outcome, labels, values, generators,
+    strategies); every labelled part of every case is judged against the declared schemas; an operation that ends
+    without a single case although an input left to generate can certainly be violated is a violation."""
+    rng = chk.rng
+    scenarios = x_scenarios(rng, chk.budget(3, 60))
+    n_draws = chk.budget(8, 15)
+    reqs, obs, judged, zero = [], [], [], []
+    for i, (name, params, body, body_supplied) in enumerate(scenarios):
+        template, d, declared, body_def, kw, strip = build_x_real(name, params, body, body_supplied, rng)
+        raw = {"openapi": "3.0.2", "info": {"title": "t", "version": "1"}, "paths": {template: {"post": d}}}
+        op = schemathesis.openapi.from_dict(raw)[template]["POST"]
+        desc, rq, lex = describe(op), reqs_of(op), lean_explicit(kw)
+        configs = [[GenerationMode.NEGATIVE]]
+        if chk.thorough or name == "random":
+            configs.append([GenerationMode.POSITIVE, GenerationMode.NEGATIVE])
+        for modes in configs:
+            cfg = GenerationConfig(modes=list(modes))
+            seed_ = chk.seed * 100019 + i
+            key = {"scenario": name, "operation": d, "explicit": {k: canon(v) for k, v in kw.items()},
+                   "modes": [m.value for m in modes], "hypothesis_seed": seed_}
+            with Tap(scripted=False) as tap:
+                strat = op.as_strategy(generation_mode=GenerationMode.NEGATIVE, generation_config=cfg, **kw)
+                cases, stop = draw_real_tapped(strat, n_draws, seed_, tap)
+            chk.feature(f"explicit:real:{name.split(':')[0]}:outcome={stop.split(':')[0] if stop else 'cases'}")
+            if stop and (stop.startswith("error") or stop.startswith("KeyError")):
+                continue
+            complete = [r for r in tap.records if len(r["containers"]) == 5]
+            for j, rec in enumerate(complete):
+                kind = "case" if rec["case"] is not None else ("skip" if stop == "skip" and rec is tap.records[-1] else "reject")
+                a = {"variants": dict(X_VARIANTS), "op": desc, "reqs": rq, "explicit": lex, "only": len(modes) == 1,
+                     "mode": "negative", "draws": record_draws(rec)}
+                a, impl = abstract_real(a, observed_x(rec, kind, rec["case"]))
+                reqs.append(("labelsX", a))
+                obs.append((key, impl))
+            for case in cases:
+                judged.append((key, modes, seed_, case, op, declared, body_def, strip))
+            if not cases:
+                zero.append((key, stop, tap.records, declared, body_def, kw, len(modes) == 1))
+    outs = chk.driver().batch(reqs)
+    for (key, impl), m, (_, a) in zip(obs, outs, reqs):
+        if "__err__" in m:
+            raise InfraError(f"model error {m} on {a}")
+        model = model_x(m)
+        chk.case("explicit:real", key=[key, a["draws"]], nontrivial=True, sample={"in": key, "impl": impl["outcome"]})
+        impl["strategies"] = {k: v for k, v in impl["strategies"].items() if v is not None}
+        for part in ("values", "generators", "strategies"):
+            model[part] = {k: v for k, v in model[part].items() if k in impl[part]}
+        if model != impl:
+            chk.disagreement("explicit:real", {**key, "lean": a}, model, impl)
+    judge_real(chk, judged)
+    violables = strictly_violable(chk, [(z[3], z[4], z[5]) for z in zero])
+    for (key, stop, records, declared, body_def, kw, only), violable in zip(zero, violables):
+        chk.case("explicit:real:no-cases", key=key, nontrivial=True, sample={"in": key, "outcome": stop, "violable": violable})
+        if not violable:
+            continue
+        rep = {"kind": "explicit-real", **key, "outcome": "SkipTest" if stop == "skip" else "Unsatisfiable",
+               "inputs_left_that_can_be_violated": violable}
+        if stop == "skip":
+            last = records[-1] if records else {"draws": {}, "containers": {}}
+            dropped = [loc for loc in PARAM_LOCS if kw.get(EXPLICIT_KW[loc]) and last["draws"].get(loc) is not None
+                       and loc in last["containers"] and last["containers"][loc].generator is None]
+            rep["drawn"] = {loc: canon(dict(v)) for loc, v in last["draws"].items() if v is not None}
+            if dropped:
+                chk.violation(KF_EQUAL_TO_EXPLICIT, f"the value drawn for {dropped[0]} adds nothing to the supplied part "
+                              "(`value == explicit`), the generator is dropped and the test is skipped although negative "
+                              "cases exist", rep)
+            else:
+                chk.violation("C02:openapi_cases:SkipTest-although-an-input-left-to-generate-can-be-violated",
+                              "the operation is skipped in negative mode although an input that is left to generate can "
+                              "be violated", rep)
+            continue
+        # Unsatisfiable: which location's draw never succeeded?
+        starved = Counter(r["attempted"][-1] for r in records
+                          if r["attempted"] and r["attempted"][-1] not in r["containers"])
+        loc = starved.most_common(1)[0][0] if starved else None
+        rep["starved_location"] = loc
+        if loc is None:
+            chk.violation("C02:explicit:no-negative-case-although-an-input-left-to-generate-can-be-violated",
+                          "no negative case was produced although an input that is left to generate can be violated", rep)
+            continue
+        supplied = set(kw.get(EXPLICIT_KW[loc], {}))
+        left = {n: sc for n, sc in (declared[loc]["properties"] if declared[loc] else {}).items() if n not in supplied}
+        if not left:
+            chk.violation(f"C02:explicit:{loc}:all-parameters-supplied:location-starves-the-operation",
+                          f"every {loc} parameter is supplied by the caller, yet the {loc} strategy rejects every draw "
+                          "and the operation gets no negative case although another input can be violated", rep)
+        elif loc in KF_SUPPLIED_COUNTED and all(sc == {"type": "string"} for sc in left.values()):
+            chk.violation(KF_SUPPLIED_COUNTED[loc], f"only plain string {loc} parameters are left to generate, "
+                          "but the negative strategy is used because a supplied parameter counts as negatable; it "
+                          "rejects every draw and the operation gets no negative case", rep)
+        else:
+            chk.violation(f"C02:explicit:{loc}:strategy-yields-nothing-although-an-input-can-be-violated",
+                          f"the {loc} strategy rejects every draw and the operation gets no negative case although an "
+                          "input that is left to generate can be violated", rep)
+
+
 def run(chk):
     warnings.simplefilter("ignore")
     G.selfcheck(chk, chk.budget(150, 1500))
     variant = detect_variants(chk)
     detect_negate_variant(chk)
     detect_path_variant(chk)
+    detect_x_variants(chk)
+    detect_body_variant(chk)
     wire_witness(chk)
     chk.assumptions += [
         "hypothesis-jsonschema: from_schema(s) yields only instances valid for s (hypothesis `drawOK`, positive side); "
         "the negative side of `drawOK` is theorem filter_guarantee",
         "can_negate = (canonicalish(s) != {}) enters the model as an oracle evaluated by the real library",
-        "as_strategy() is used without explicit path_parameters/headers/cookies/query/body overrides "
-        "(`value == explicit` never holds); hooks do not replace the strategies",
+        "hooks do not replace the strategies; explicit parameter values are dicts of JSON values, the drawn part of a "
+        "location is a dict (the location strategies yield dicts), an explicit body does not name a media type with a "
+        "custom strategy",
+        "label soundness with explicit values is stated for the merged part under the contract `drawOKX`; the step from "
+        "the drawn part to the merged part is merge_keeps_violation_partial / merge_keeps_conformance (the caller's own "
+        "values conform; the drawn part does not overwrite a supplied name)",
         "mutation theorems: draft-4 reading of the schema (the code's own validator), no `$ref` at the top level of the "
         "mutated schema, Python dicts (unique keys)",
         "'declared schema of a parameter location' = the object schema {properties, required, additionalProperties: "
@@ -1378,6 +2195,16 @@ def run(chk):
         "failure_leaves_schema_unchanged, mutate_rejects_iff_nothing_succeeded, negate_never_raises_repaired",
         "changeType_negates_full_false, negate_negates_full_false, negate_keyError_witness, wire_spelling_witness "
         "(witnesses: a SUCCESS mutation need not exclude valid instances; only the final filter does)",
+        "explicit values: explicit_none_is_plain, all_supplied_never_negative_factory, all_supplied_strategy_none_repaired, "
+        "none_strategy_location_unlabelled (a location the caller supplied entirely is never sent through the negative "
+        "factory, carries no label and reaches the case unchanged)",
+        "negative_factory_only_on_negatable_repaired + negative_factory_only_on_negatable_false_asFound (FC02d), "
+        "gets_cases_X_repaired + gets_cases_X_full_false_asFound (FC02e), skip_not_fail_X, labels_sound_X",
+        "strategy_cache_key_sound (equal `_PARAMETER_STRATEGIES_CACHE` keys give the same strategy), "
+        "merge_keeps_supplied_values, merge_keeps_conformance, merge_keeps_violation_full_false (witness)",
+        "negative_body_from_negative_factory_repaired + negative_body_from_negative_factory_false_asFound (FC02g), "
+        "bodyCandidatesM_effective, body_strategy_absent_only_when_positive (registered media-type strategies, the NOT_SET "
+        "alternative of optional bodies)",
     ]
     chk.partial += [
         "labels_sound_partial_asFound: label soundness of the code as found only when every parameter location declares "
@@ -1387,8 +2214,10 @@ def run(chk):
         "label soundness is relative to `drawOK` (positive strategy yields valid values: third-party contract) and is "
         "stated for raw values; the wire spelling of negative parameter values is not covered (F9, known finding)",
         "change_properties / change_items are modelled relative to the results of the nested mutations (each nested "
-        "call is compared separately); tuple-form `items`, `patternProperties` interplay and explicit-argument merging "
-        "are not modelled",
+        "call is compared separately); tuple-form `items` and the `patternProperties` interplay are not modelled",
+        "gets_cases_X_partial_asFound: with `value == explicit` as found, a case is guaranteed only when the merged value "
+        "of every negatively generated location differs from what the caller supplied (FC02e excluded by hypothesis)",
+        "merge_keeps_violation_partial: the drawn part must not mention a supplied name",
     ]
     chk.sampled_only += [
         "real Hypothesis draws (as_strategy in NEGATIVE and mixed configuration, pinned seeds): labels vs model, every "
@@ -1397,10 +2226,16 @@ def run(chk):
         "'negatable ⇒ gets cases' on the real strategies depends on Hypothesis finding examples; an Unsatisfiable "
         "outcome is diagnosed per location (universal schema not recognised by can_negate = known finding FC02b)",
         "parts containing floats that jsonschema and exact decimals may read differently are not judged (counted)",
+        "real draws with explicit values (as_strategy(NEGATIVE, headers=/cookies=/query=/path_parameters=/body=)): "
+        "every execution of openapi_cases that reached the labelling step vs the model, labelled parts judged against "
+        "the declared schemas, 'no case although an input left to generate can certainly be violated' judged by the "
+        "reference semantics over a panel of wire spellings",
     ]
     labels_scripted(chk, variant)
+    labels_explicit(chk)
     mutations_corr(chk)
     labels_real(chk, variant)
+    explicit_real(chk)
     filter_replay(chk)
     chk.exhaustive = False
     chk.notes.append("labels:scripted enumerates every choice sequence of openapi_cases for each sampled operation "
@@ -1419,9 +2254,14 @@ def replay(chk, data):
         print("mechanism:", r["correspondence"])
         print("recorded model:", json.dumps(r.get("model"), default=str)[:2000])
         print("recorded impl: ", json.dumps(r.get("impl"), default=str)[:2000])
-        if isinstance(inp, dict) and "lean" in inp and "shape" in inp:
+        if isinstance(inp, dict) and "lean" in inp and "shape" in inp and "explicit" not in inp:
             kind, r = "scripted", {"operation": inp["shape"], "modes": ["negative"] if inp.get("only") else ["positive", "negative"],
                                    "choices": inp.get("choices", [])}
+        elif isinstance(inp, dict) and "shape" in inp and "explicit" in inp:
+            kind, r = "scripted-explicit", {"shape": inp["shape"], "explicit": inp["explicit"], "choices": inp.get("choices", []),
+                                            "modes": ["negative"] if inp.get("only") else ["positive", "negative"]}
+        elif isinstance(inp, dict) and "scenario" in inp and "explicit" in inp:
+            kind, r = "explicit-real", inp
         elif isinstance(inp, dict) and "op" in inp and "a" in inp:
             kind, r = "mutation", {"request": inp["a"], "opname": inp["op"]}
         elif isinstance(inp, dict) and "operation" in inp and "hypothesis_seed" in inp:
@@ -1440,6 +2280,37 @@ def replay(chk, data):
             a = {"variant": variant, "op": describe(op), "only": len(modes) == 1, "mode": "negative",
                  "draws": draws_of(conts, body_idx)}
             print(f"model {variant}:", model_outcome(drv.one("labels", a)))
+    elif kind == "scripted-explicit":
+        sh, ex = (r.get("operation") or r)["shape"], (r.get("operation") or r)["explicit"]
+        modes = [GenerationMode(m) for m in r["modes"]]
+        template, d = make_x_operation(sh, 0)
+        raw = {"openapi": "3.0.2", "info": {"title": "t", "version": "1"}, "paths": {template: {"post": d}}}
+        op = schemathesis.openapi.from_dict(raw)[template]["POST"]
+        kw = explicit_kwargs(d, ex)
+        detect_x_variants(chk)
+        with Tap(scripted=True) as tap:
+            k, case, body_idx = run_openapi_cases_x(op, modes, Chooser(r.get("choices", [])), kw)
+        rec = tap.records[-1]
+        print("impl now :", json.dumps(observed_x(rec, k, case), default=str)[:2000])
+        a = {"variants": dict(X_VARIANTS), "op": describe(op), "reqs": reqs_of(op), "explicit": lean_explicit(kw),
+             "only": len(modes) == 1, "mode": "negative", "draws": record_draws(rec, body_idx)}
+        print("model    :", json.dumps(model_x(drv.one("labelsX", a)), default=str)[:2000])
+    elif kind == "explicit-real":
+        d = r["operation"]
+        template = "/r" + "".join(f"/{{{p['name']}}}" for p in d["parameters"] if p["in"] == "path")
+        raw = {"openapi": "3.0.2", "info": {"title": "t", "version": "1"}, "paths": {template: {"post": d}}}
+        op = schemathesis.openapi.from_dict(raw)[template]["POST"]
+        cfg = GenerationConfig(modes=[GenerationMode(m) for m in r["modes"]])
+        kw = dict(r["explicit"])
+        with Tap(scripted=False) as tap:
+            cases, stop = draw_real_tapped(op.as_strategy(generation_mode=GenerationMode.NEGATIVE, generation_config=cfg, **kw),
+                                           20, r["hypothesis_seed"], tap)
+        print("impl now : outcome", {"skip": "SkipTest", "reject": "Unsatisfiable"}.get(stop, stop) or "cases", f"({len(cases)} cases)")
+        for c in cases[:10]:
+            print("  ", observed(c), {k: str(getattr(c, k))[:50] for k in KINDS})
+        print("strategies per location (last execution):", tap.records[-1]["strats"] if tap.records else None)
+        print("recorded :", json.dumps({k: r.get(k) for k in ("outcome", "inputs_left_that_can_be_violated",
+                                                              "starved_location", "drawn")}, default=str))
     elif kind == "real":
         d = r["operation"]
         template = "/r" + "".join(f"/{{{p['name']}}}" for p in d["parameters"] if p["in"] == "path")
